@@ -29,6 +29,7 @@ type genCfg struct {
 	IllTyped   bool    // assignments over every (current type, assigned type, operator)
 	VisitLine  bool    // node bodies start with a line rendering visited()/visited_count()
 	RichExpr   bool    // deeper expression trees with probes
+	MathHeavy  bool    // most number expressions go through the numeric built-ins
 	Reloop     bool    // the start node ends by jumping to itself twice, with the variables changed
 	OptConds   bool    // most options carry a condition, many of them reading no variable (visit functions, host functions)
 	Markup     float64 // probability that a line carries a literal inside a markup wrapper (text must not change)
@@ -58,6 +59,9 @@ var families = map[string]genCfg{
 	// hub nodes presented again and again: the same option group's conditions must be evaluated at every presentation
 	"optcond": {Family: "optcond", MaxNodes: 3, MaxDepth: 2, MaxStmts: 3, Opts: 5, Ifs: 0.5, Sets: 1, Jumps: 3, Stops: 0.2, Lines: 1.5,
 		VisitLine: true, CountJumps: true, OptConds: true, Storer: "recording"},
+	// every line computes with floor / ceil / round / inc / dec / integer / decimal (shared-state bugs in the built-ins)
+	"mathy": {Family: "mathy", MaxNodes: 2, MaxDepth: 1, MaxStmts: 6, Sets: 2, Lines: 6, Ifs: 1, Jumps: 0.5, RichExpr: true, MathHeavy: true,
+		Reloop: true, Storer: "recording"},
 	"snap": {Family: "snap", MaxNodes: 3, MaxDepth: 2, MaxStmts: 4, Opts: 2, Ifs: 1, Sets: 3, Jumps: 2.5, Stops: 0.3, Lines: 2,
 		Cmds: 1.5, PendCmds: true, VisitLine: true, Storer: "recording"},
 }
@@ -274,6 +278,10 @@ func (g *gen) expr(t string, depth int) *Expr {
 	leaf := depth <= 0 || r.Intn(3) == 0
 	switch t {
 	case "n":
+		if g.cfg.MathHeavy && depth > 0 && r.Intn(2) == 0 {
+			fn := []string{"floor", "ceil", "round", "inc", "dec", "integer", "decimal"}[r.Intn(7)]
+			return eCall(fn, g.expr("n", depth-1))
+		}
 		if leaf {
 			switch r.Intn(3) {
 			case 0:
